@@ -532,8 +532,10 @@ static cbor_item_t* build_item(void) {
     return r;
   } else if (!strcmp(k, "bsi")) { return build_chunked(false);
   } else if (!strcmp(k, "tsi")) { return build_chunked(true);
-  } else if (!strcmp(k, "arr") || !strcmp(k, "arri") || !strcmp(k, "map") || !strcmp(k, "mapi")) {
+  } else if (!strcmp(k, "arr") || !strcmp(k, "arri") || !strcmp(k, "map") || !strcmp(k, "mapi") || !strcmp(k, "arrd") || !strcmp(k, "mapd")) {
     cbor_item_t** xs = NULL; size_t n = 0, cap = 0;
+    size_t declared = 0; bool has_decl = k[3] == 'd';
+    if (has_decl) { sx_word(v, sizeof v); declared = parse_u64(v); }
     for (;;) {
       sx_ws();
       if (*sx == ')') { sx++; break; }
@@ -544,10 +546,10 @@ static cbor_item_t* build_item(void) {
       xs[n++] = x;
     }
     if (k[0] == 'a') {
-      r = k[3] == 'i' ? cbor_new_indefinite_array() : cbor_new_definite_array(n);
+      r = k[3] == 'i' ? cbor_new_indefinite_array() : cbor_new_definite_array(has_decl ? declared : n);
       for (size_t i = 0; i < n; i++) { if (!cbor_array_push(r, xs[i])) build_failed = true; cbor_decref(&xs[i]); }
     } else {
-      r = k[3] == 'i' ? cbor_new_indefinite_map() : cbor_new_definite_map(n / 2);
+      r = k[3] == 'i' ? cbor_new_indefinite_map() : cbor_new_definite_map(has_decl ? declared : n / 2);
       for (size_t i = 0; i + 1 < n; i += 2) {
         if (!cbor_map_add(r, (struct cbor_pair){.key = xs[i], .value = xs[i + 1]})) build_failed = true;
         cbor_decref(&xs[i]); cbor_decref(&xs[i + 1]);
@@ -824,6 +826,18 @@ static void do_utf8(char* line) {
   size_t cp1 = cbor_string_codepoint_count(s);
   bool content = cbor_string_length(s) == n && memcmp(cbor_string_handle(s), d, n) == 0;
   cbor_decref(&s);
+  /* path 1b: attach to an item that previously held valid text (6 code points) */
+  s = cbor_new_definite_string();
+  unsigned char* h0 = hx_malloc(8); memcpy(h0, "abc\xC3\xA9yz", 8);
+  cbor_string_set_handle(s, h0, 8);
+  size_t cp0 = cbor_string_codepoint_count(s);
+  hx_free(h0);
+  unsigned char* h1 = hx_malloc(n); memcpy(h1, d, n);
+  cbor_string_set_handle(s, h1, n);
+  size_t cp1b = cbor_string_codepoint_count(s);
+  cbor_decref(&s);
+  if (cp0 != 7) cp1 = (size_t)-2;
+  if (cp1b != cp1) cp1 = (size_t)-3;
   /* path 2: cbor_build_stringn */
   s = cbor_build_stringn((const char*)d, n);
   size_t cp2 = cbor_string_codepoint_count(s);
